@@ -18,7 +18,7 @@ CHECKS = {
 
 CHECKS["C03"] = ("exploration",
     "runtime monitoring: real LayerEnv write/read on generated (old env, new env) pairs and hand-made env directories; directory snapshots and read-back probes judged by an independent spec-layout model",
-    "Ordered pairs of generated environments (all scopes incl. per-process, 5 behaviours, byte-string names/values) are written one after the other into a layer dir with bystander files; after every write the full snapshot must equal the spec layout of the new env alone plus unchanged bystanders, and 28 apply() probes after read_from_layer_dir must equal the reference model; hand-made spec-shaped dirs (suffix-less, unknown suffixes, process sub-dirs, symlinks) exercise the reader alone.",
+    "Ordered pairs of generated environments (all scopes incl. per-process, 5 behaviours, byte-string names/values) are written one after the other into a layer dir with bystander files; plus derived pairs (the new env is the old one minus whole scopes / all process scopes, and vice versa, and identical re-writes); after every write the full snapshot must equal the spec layout of the new env alone plus unchanged bystanders, and 28 apply() probes after read_from_layer_dir must equal the reference model; hand-made spec-shaped dirs (suffix-less, unknown suffixes, process sub-dirs, symlinks) exercise the reader alone.",
     "Trusted: tools/envmodel.py (layout + rules). Dotted names / duplicate NAME + NAME.override on the hand-made read side are unspecified and skipped. quick: 3k pairs over a 60-env covering pool + 1k read dirs; thorough: all 40k ordered pairs over a 200-env pool + 10k read dirs.")
 CHECKS["C09"] = ("exploration",
     "runtime monitoring: the real FromStr/Deserialize implementations and the real literal macros (observed through cargo check diagnostics) driven over an enumerated string space, judged by hand-written recognisers of the spec grammar (three-valued)",
@@ -31,11 +31,11 @@ CHECKS["C10"] = ("exploration",
 
 CHECKS["C13"] = ("exploration",
     "runtime monitoring: real build_libcnb_buildpacks_dependency_graph + get_dependencies on every labelled DAG materialised on disk, each returned order judged by a brute-force closure/topological checker",
-    "Every labelled DAG on 1..4 (quick) / 1..5 (thorough: 29 281 DAGs, 9.5 M orderings) nodes is written out as a workspace of composite / libcnb.rs / foreign buildpacks with libcnb: and noise dependencies in 8 layout variants, loaded through the real graph builder, and every non-empty ordered root selection is ordered by the real get_dependencies; the result must be exactly the reflexive-transitive closure, duplicate-free, dependencies first. Random DAGs on 6-12 nodes and workspaces with one dangling dependency (must be an error naming it) are added.",
+    "Every labelled DAG on 1..4 (quick) / 1..5 (thorough: 29 281 DAGs, 9.5 M orderings) nodes is written out as a workspace of composite / libcnb.rs / foreign buildpacks with libcnb: and noise dependencies in 16 layout variants (dependency order, directory names, composites vs. libcnb.rs component buildpacks that declare dependencies in package.toml), loaded through the real graph builder, and every non-empty ordered root selection is ordered by the real get_dependencies; the result must be exactly the reflexive-transitive closure, duplicate-free, dependencies first. Random DAGs on 6-12 nodes and workspaces with one dangling dependency (must be an error naming it) are added.",
     "Trusted: the brute-force judge inside the executor (adjacency matrix drawn by the generator itself).")
 CHECKS["C14"] = ("exploration",
     "runtime monitoring: real package_composite_buildpack on generated composite buildpacks; the written package.toml is read by an independent TOML parser and compared with a reference normaliser (posixpath)",
-    "Generated package.toml files mix libcnb:, relative (with '.', '..', '//', trailing '/', climbing above '/'), absolute, docker, http(s), urn and file URIs in any order and multiplicity (incl. duplicates that collapse after normalisation), all [platform] variants, several source depths, complete id->path maps or maps missing exactly one referenced id; output must parse, keep count and order, map each kind as the statement says, preserve buildpack.uri/platform, and be readable by libcnb again; a missing id must be an error with no package.toml written.",
+    "Generated package.toml files mix libcnb:, relative (with '.', '..', '//', trailing '/', climbing above '/'), absolute, docker, http(s), urn and file URIs in any order and multiplicity (incl. duplicates that collapse after normalisation), all [platform] variants, several source depths, ids that differ only by a trailing '/', complete id->path maps or maps missing exactly one referenced id; output must parse, keep count and order, map each kind as the statement says, preserve buildpack.uri/platform, and be readable by libcnb again; a missing id must be an error with no package.toml written.",
     "Trusted: tools/c14.py reference (posixpath.normpath/join) and tomllib. One open known finding (scheme lower-casing) is listed in KNOWN_FINDINGS.txt.")
 CHECKS["C18"] = ("exploration",
     "runtime monitoring: real Inventory::resolve / partial_resolve over an exhaustively enumerated inventory x query space judged by brute-force maximality, plus checksum / TOML round-trip monitors judged by an independent recogniser and tomllib",
@@ -43,7 +43,7 @@ CHECKS["C18"] = ("exploration",
     "Trusted: the brute-force judge inside the executor, rec_checksum in tools/c18.py, tomllib.")
 CHECKS["C19"] = ("exploration",
     "runtime monitoring: real output_and_write_streams / spawn_and_write_streams on a scripted child under concurrent load with recording writers and a /proc-based deadlock diagnosis; writers enumerated over all strings x all chunkings against an independent segment model",
-    "Streams: a scripted child writes checkable byte sequences (0 to 4 pipe buffers, one stream first, alternating, simultaneous from two threads, delays, early close, exit codes) while 24 instances run concurrently; recording / slow / partial-write writers; both the writers and Output must hold exactly the child's bytes per stream, status must match; a run that does not return within 10 s is a violation only if /proc shows the child blocked writing a pipe that no parent thread reads with no progress over 3 s, else inconclusive. Writers: every string over {marker, other} up to length 11 (quick) / 13 (thorough) x every split into write calls through line_mapped+drop, mapped+unwrap, tee with partial-write targets and stacked combinations.",
+    "Streams: (a quarter of the runs use line_mapped(prefix) writers, whose output must be every line prefixed exactly once however the lines were split across pipe reads) a scripted child writes checkable byte sequences (0 to 4 pipe buffers, one stream first, alternating, simultaneous from two threads, delays, early close, exit codes) while 24 instances run concurrently; recording / slow / partial-write writers; both the writers and Output must hold exactly the child's bytes per stream, status must match; a run that does not return within 10 s is a violation only if /proc shows the child blocked writing a pipe that no parent thread reads with no progress over 3 s, else inconclusive. Writers: every string over {marker, other} up to length 11 (quick) / 13 (thorough) x every split into write calls through line_mapped+drop, line_mapped with flush() after every write, mapped+unwrap, tee with partial-write targets and stacked combinations.",
     "Trusted: the segment model in the executor; /proc/<pid>/task/*/syscall as deadlock evidence. Liveness is restated as bounded progress.")
 
 CHECKS["C07"] = ("exploration",
@@ -52,53 +52,53 @@ CHECKS["C07"] = ("exploration",
     "Trusted: tomllib, tools/tomlw.py, the spec readers in tools/c07.py. One defect found by this monitor was repaired (fix: b5a89eb).")
 CHECKS["C08"] = ("exploration",
     "runtime monitoring: the real serde-derived parsers (toml::from_str and read_toml_file) driven over generated valid documents and all their single-point mutants; accept/reject and parsed values judged against the generating schema",
-    "Schema-driven generator for component and composite buildpack.toml (every optional-key subset reachable, licenses, stacks+mixins, targets+distros, sbom-formats), buildpack plan, layer content metadata, launch.toml, store and package.toml, rendered in four table styles; every valid document must parse as each applicable public type with exactly the document's values and spec defaults (free-form metadata with arbitrary keys preserved); for each document every single-point mutant - unknown key in every non-metadata table, each certainly-required key deleted, each scalar/array retyped, order added to a component, targets/stacks added to a composite - must be rejected, and BuildpackDescriptor must classify by presence of order.",
+    "Schema-driven generator for component and composite buildpack.toml (every optional-key subset reachable, licenses, stacks+mixins, targets+distros, sbom-formats), buildpack plan, layer content metadata, launch.toml, store and package.toml, rendered in four table styles; every valid document must parse as each applicable public type with exactly the document's values and spec defaults (free-form metadata with arbitrary keys preserved); for each document every single-point mutant - unknown key in every non-metadata table, each certainly-required key deleted, each scalar/array retyped, order added to a component, targets/stacks added to a composite - must be rejected, and BuildpackDescriptor must classify by presence of order. Unknown keys include look-alikes of real keys (clear_env for clear-env, Id, ids, ...: the key is renamed, its value kept). For <layer>.toml the same valid/mutant documents also go through cached_layer, uncached_layer and handle_layer: what the strict parser rejects must not be accepted there (and the layer silently deleted).",
     "Trusted: the schema in tools/c08.py (field names, requiredness and defaults from the spec). Keys whose optionality the spec leaves open are never used for delete mutants.")
 
 CHECKS["C01"] = ("exploration",
     "runtime monitoring: build histories (cached_layer / uncached_layer with scripted callbacks, LayerRef writes, simulated cache restores) executed against the real BuildContext; after every step the reported state, the callback log and a full snapshot of <layers> are judged by an independent state-machine model",
-    "All histories of length <=3 (quick) / <=4 (thorough) over a 15-symbol alphabet (generic/typed metadata x keep/delete/replace/error decisions, uncached, the five kinds of writes, restore, a second dotted-name layer) plus 500 / 5000 random histories of up to 30 / 60 steps over three layer names. After each request: state+cause must equal what the scripted callbacks decided, callbacks must have run exactly once when due and with the on-disk metadata and path, the layer dir and <layer>.toml must exist with exactly the requested build/launch/cache flags, Restored must keep files/env/exec.d/SBOMs/metadata byte-for-byte, Empty must leave no file, metadata or SBOM, other layers and the rest of <layers> must be byte-identical; every LayerRef write is checked for exact replace semantics.",
+    "All histories of length <=3 (quick) / <=4 (thorough) over a 15-symbol alphabet (generic/typed metadata x keep/delete/replace/error decisions, uncached, the five kinds of writes, restore, a second dotted-name layer) (thorough: length <=5) plus 1500 / 8000 random histories of up to 30 / 60 steps over three layer names; metadata incl. tables that parse as the typed metadata but carry extra keys; env values incl. non-UTF-8 bytes. After each request: state+cause must equal what the scripted callbacks decided, callbacks must have run exactly once when due and with the on-disk metadata and path, the layer dir and <layer>.toml must exist with exactly the requested build/launch/cache flags, Restored must keep files/env/exec.d/SBOMs/metadata byte-for-byte, Empty must leave no file, metadata or SBOM, other layers and the rest of <layers> must be byte-identical; every LayerRef write is checked for exact replace semantics.",
     "Trusted: the model in tools/c01.py and the restore rules in tools/layersim.py (those named in the quantifier). One defect found here was repaired (fix: c482b5b).")
 CHECKS["C02"] = ("exploration",
     "runtime monitoring: handle_layer histories with scripted Layer implementations (two metadata types, all strategy / migration decisions, failing callbacks, arbitrary results) against the real BuildContext; callback log, snapshot and returned LayerData judged by an independent model",
-    "All histories of length <=3 / <=4 over an 11-symbol alphabet plus 400 / 4000 random histories with restores. Checked per call: exactly the expected callback sequence (create only on an empty directory; strategy / update / migrate exactly once when due, never otherwise), callbacks see the on-disk metadata, callback errors surface as the buildpack error; afterwards types = types(), metadata / env for all four scopes incl. per-process / exec.d / SBOM files equal the returned result (or, for keep, the previous snapshot with only types refreshed), other files as the callback left them, other layers untouched; the returned LayerData (name, path, types, metadata, env probed for 6 scopes x 2 starting envs) must behave like an independent reading of the disk.",
+    "All histories of length <=3 / <=5 over an 11-symbol alphabet plus 1200 / 6000 random histories with restores (env values incl. non-UTF-8 bytes). Checked per call: exactly the expected callback sequence (create only on an empty directory; strategy / update / migrate exactly once when due, never otherwise), callbacks see the on-disk metadata, callback errors surface as the buildpack error; afterwards types = types(), metadata / env for all four scopes incl. per-process / exec.d / SBOM files equal the returned result (or, for keep, the previous snapshot with only types refreshed), other files as the callback left them, other layers untouched; the returned LayerData (name, path, types, metadata, env probed for 6 scopes x 2 starting envs) must behave like an independent reading of the disk.",
     "Trusted: the model in tools/c02.py, tools/envmodel.py. One defect found here was repaired (fix: 57bd66a).")
 
 CHECKS["C05"] = ("exploration",
     "runtime monitoring: the real libcnb_runtime executed as detect/build processes (a scripted Buildpack impl reached through symlinks) over the full factor product; exit status, marker file and before/after snapshots judged by a decision table written from the statement",
-    "Full product of executable name (detect, build, bin, detect.sh) x argc 0..4 x buildpack.toml kind (api 0.10, 0.9, 1.0, 0.10 with broken rest, malformed, absent, api not a string, CNB_BUILDPACK_DIR unset) x presence of each of the five CNB_TARGET_* variables x platform/plan condition x pre-existing (longer) output files, ~36k process runs per quick run (thorough: 4 behaviours per configuration); every behaviour (detect pass / pass+plan / fail / error; build with every subset of launch, store, build SBOMs, launch SBOMs, build error, layer error) on every dispatching configuration. Checked: exit class, detect()/build() reached exactly once or never, on_error exactly once after dispatch and at most once before, written files decode (tomllib + spec reader) to what was returned, outputs that were not provided are neither created nor modified, nothing else under the work tree changes.",
+    "Full product of executable name (detect, build, bin, detect.sh) x argc 0..4 x buildpack.toml kind (api 0.10, 0.9, 1.0, 0.10 with broken rest, malformed, absent, api not a string, CNB_BUILDPACK_DIR unset) x presence of each of the five CNB_TARGET_* variables x platform/plan condition x pre-existing (longer) output files, ~36k process runs per quick run (thorough: 4 behaviours per configuration); every behaviour (detect pass / pass+plan / fail / error; build with every subset of launch, store, build SBOMs, launch SBOMs, build error, layer error) on every dispatching configuration. Also: an empty store must still be written; a path argument that is not valid UTF-8 must either be refused (buildpack not reached, non-zero) or be honoured byte for byte. Checked: exit class, detect()/build() reached exactly once or never, on_error exactly once after dispatch and at most once before, written files decode (tomllib + spec reader) to what was returned, outputs that were not provided are neither created nor modified, nothing else under the work tree changes.",
     "Trusted: the decision table in tools/c05.py. Exact non-zero codes are not asserted.")
 CHECKS["C06"] = ("exploration",
     "runtime monitoring: the real runtime executed as detect/build on generated platform directories / plans / stores / descriptors / target variables; a JSON dump of the context written by the scripted buildpack is compared field by field with the generated inputs",
-    "Generated <platform>/env directories (byte-string file names, UTF-8 contents incl. empty / newlines / 5 kB, sub-directories, symlinks to files and directories, dangling links, no env dir, files with non-UTF-8 content), buildpack plans / store tables / descriptor metadata from nested TOML values of every kind, all presence/value combinations of the target variables incl. non-UTF-8 values, work directories with spaces and Unicode, store.toml absent / valid / empty / non-UTF-8 / a directory / malformed. The dump must equal the inputs exactly; unrepresentable inputs must end in the error path (on_error once, non-zero, no context), never in a context with the entry missing or altered.",
+    "Generated <platform>/env directories (byte-string file names, UTF-8 contents incl. empty / newlines / 5 kB, sub-directories, symlinks to files and directories, dangling links, no env dir, files with non-UTF-8 content), buildpack plans / store tables / descriptor metadata from nested TOML values of every kind, all presence/value combinations of the target variables incl. non-UTF-8 values, work directories with spaces and Unicode, CNB_BUILDPACK_DIR given plainly / through a symlink / with '.' and '..' / with a trailing slash (the context must carry the supplied string), store.toml absent / valid / empty / non-UTF-8 / a directory / malformed. The dump must equal the inputs exactly; unrepresentable inputs must end in the error path (on_error once, non-zero, no context), never in a context with the entry missing or altered.",
     "Trusted: tools/c06.py generator = oracle (equality with its own inputs), tomllib/tomlw. One defect found here was repaired (fix: 2d61a47).")
 
 CHECKS["C20"] = ("exploration",
     "runtime monitoring: paired (tripled) executions in fresh processes under different work-dir roots; per-step directory snapshots compared byte for byte",
-    "The history generators of C01 and C02 (with widened payloads: 12-key metadata tables incl. nested ones, 8 per-process env dirs, full exec.d sets) and detect+build phase scenarios (3 or-groups x 8 provides/requires with 12-key metadata, 12 labels with duplicated keys in random order, 6 processes, 13+12-key store, all SBOM kinds) each run in three fresh OS processes (fresh RandomState seeds, different PIDs/times, roots of different length and depth); <layers>, the build plan, launch.toml, store.toml, <layer>.toml, env files, exec.d and SBOM files must be byte-identical after every step.",
+    "The history generators of C01 and C02 (with widened payloads: 12-key metadata tables incl. nested ones, 8 per-process env dirs, full exec.d sets) and detect+build phase scenarios (3 or-groups x 8 provides/requires with 12-key metadata, 12 labels with duplicated keys in random order, 6 processes, 13+12-key store, all SBOM kinds; two different SBOM documents of one format; values derived from read_env().apply() written into layer metadata, with several behaviours on one variable) each run in three fresh OS processes (fresh RandomState seeds, different PIDs/times, roots of different length and depth); <layers>, the build plan, launch.toml, store.toml, <layer>.toml, env files, exec.d and SBOM files must be byte-identical after every step.",
     "Trusted: snapshot comparison only. A leak of hash order over >=8 keys would show with probability > 0.999 per scenario.")
 
 CHECKS["C11"] = ("exploration",
     "runtime monitoring: delete/recreate through the four public routes on generated hostile layer trees, executed as an unprivileged uid under an LD_PRELOAD libc effect tracer; before/after snapshots of everything outside the layer plus the physical target of every mutating call are judged for containment",
-    "Generated trees under <layers>/<name> (depth <=4, directory modes 755/555/666/000/311/700, file modes 000-755, symlinks to files/dirs inside the layer, in a sibling layer, in a canary tree beside <layers>, relative and absolute, dangling, self- and mutual loops, '..', the layers root; the layer path itself being a directory or a symlink to a sibling dir / canary dir / canary file / nowhere; dotted layer names whose stem is the sibling's name) are removed via uncached_layer, cached_layer+DeleteLayer, handle_layer+Recreate and migration RecreateLayer as uid 65534. Oracle: the snapshot (content, mode, link target) of everything except the layer's own dir/toml/SBOM files is unchanged; every successful open-for-write / mkdir / unlink / rmdir / rename / chmod / symlink / truncate / write traced by fsshim has its physical target inside the layer dir (not through links) or on the layer's own toml/SBOM files; on Ok nothing of the old tree remains.",
+    "Generated trees under <layers>/<name> (depth <=4, directory modes 755/555/666/000/311/700, file modes 000-755, symlinks to files/dirs inside the layer, in a sibling layer, in a canary tree beside <layers>, relative and absolute, dangling, self- and mutual loops, '..', the layers root; the layer path itself being a directory or a symlink to a sibling dir / canary dir / canary file / nowhere; <layers> itself with or without write bit; dotted layer names whose stem is the sibling's name) are removed via uncached_layer, cached_layer+DeleteLayer, handle_layer+Recreate and migration RecreateLayer as uid 65534. Oracle: the snapshot (content, mode, link target) of everything except the layer's own dir/toml/SBOM files is unchanged; every successful open-for-write / mkdir / unlink / rmdir / rename / chmod / symlink / truncate / write traced by fsshim has its physical target inside the layer dir (not through links) or on the layer's own toml/SBOM files; on Ok nothing of the old tree remains (directory content, SBOM files, a symlinked toml).",
     "Trusted: shim/fsshim.c (physical target = realpath(dirname)/basename for entry-acting calls, realpath(path) for link-following ones), vp.snapshot. Needs setpriv to drop to uid 65534 (else inconclusive). One defect found here was repaired (fix: 74147eb).")
 CHECKS["C12"] = ("fault_enumeration",
     "runtime monitoring with fault injection: for 17 representative layer / runtime operations a count pass records the sequence of libc file-system calls beneath the work prefix, then the operation is re-run once per call position with that call failing (LD_PRELOAD k-th-call injector); result and directory snapshot are compared with the fault-free run",
-    "Operations: cached_layer on nothing / keep / delete (nested tree) / invalid-metadata replace, uncached_layer over an existing layer, write_metadata, write_env over an old env with per-process scopes, write_sboms and write_exec_d_programs over old ones, handle_layer create / keep / update / recreate / migrate-replace with full results, and the real runtime as detect (pass+plan) and build (launch+store+SBOMs; with pre-existing longer outputs). Every position k of open (read/write/dir), read, write, mkdir, unlink, rmdir, rename, chmod, readdir, truncate calls x errno EIO (quick) / EIO, EACCES, ENOSPC (thorough). A fired fault followed by success is a violation unless the whole work tree is byte-identical to the fault-free run; a fault that never fires is inconclusive.",
+    "Operations: cached_layer on nothing / keep / delete (nested tree) / invalid-metadata replace, uncached_layer over an existing layer, write_metadata, write_env over an old env with per-process scopes, write_sboms and write_exec_d_programs over old ones, handle_layer create / keep / update / recreate / migrate-replace with full results, and the real runtime as detect (pass+plan) and build (launch+store+SBOMs; with pre-existing longer outputs). Every position k of open (read/write/dir), read, write, mkdir, unlink, rmdir, rename, chmod, readdir, truncate calls x errno EIO, EACCES (quick) / EIO, EACCES, ENOSPC, EPERM, EROFS (thorough). exec.d sources are executables, so a swallowed chmod failure shows as a mode difference. A fired fault followed by success is a violation unless the whole work tree is byte-identical to the fault-free run; a fault that never fires is inconclusive.",
     "Trusted: shim/fsshim.c. The scripted callbacks' own file operations are excluded from injection (vp_shim_pause). stat-family calls and ENOENT are never injected.")
 
 CHECKS["C15"] = ("fault_enumeration",
     "runtime monitoring with crash injection: the real cargo-libcnb executable (built from /repo) packages generated Cargo workspaces; exit status, stdout and the package tree are judged against a written-out specification and against the tree of a clean run; interrupted runs are produced by killing the process at its k-th mutating libc call beneath the package directory (LD_PRELOAD)",
-    "Generated workspaces: 1-4 dependency-free libcnb.rs buildpack crates with 0-2 additional binary targets (unique names, or one name shared by several crates), 0-2 composites whose package.toml mixes libcnb:/path/docker/urn dependencies forming a DAG (also on other composites), buildpacks nested beneath a composite's directory, a foreign non-libcnb buildpack, an ignore file. Invocations: workspace root, each buildpack directory, directories that are no buildpack (with and without buildpacks below), dev/release, default/relative/absolute --package-dir. Checked per run: exit status, stdout = exactly the selected buildpacks' directories, each output dir holds exactly buildpack.toml (byte-identical), bin/build (byte-identical to the cargo artifact), bin/detect -> build, .libcnb-cargo/additional-bin/<target>, package.toml (normalised per the C14 oracle) and nothing else. Histories: clean; 9 kinds of stale/foreign content planted in an output dir; every (quick: up to 24 per workspace) crash point followed by a normal re-run, whose tree must equal the clean one.",
+    "Generated workspaces: 1-4 dependency-free libcnb.rs buildpack crates with 0-2 additional binary targets (unique names, or one name shared by several crates), 0-2 composites whose package.toml mixes libcnb:/path/docker/urn dependencies forming a DAG (also on other composites), buildpacks nested beneath a composite's directory, a foreign non-libcnb buildpack, an ignore file; composites with [platform] os = windows and buildpack uri './'. Invocations: workspace root, each buildpack directory, directories that are no buildpack (with and without buildpacks below), dev/release, default/relative/absolute --package-dir. Checked per run: exit status, stdout = exactly the selected buildpacks' directories, each output dir holds exactly buildpack.toml (byte-identical), bin/build (byte-identical to the cargo artifact), bin/detect -> build, .libcnb-cargo/additional-bin/<target>, package.toml (normalised per the C14 oracle) and nothing else. Histories: clean; 9 kinds of stale/foreign content planted in an output dir; every (quick: up to 24 per workspace) crash point followed by a normal re-run, whose tree must equal the clean one.",
     "Trusted: the tree specification in tools/c15.py, shim/fsshim.c. Only --target x86_64-unknown-linux-gnu can be built here; runs as root (undeletable stale content not explored).")
 
 CHECKS["C16"] = ("fault_enumeration",
     "runtime monitoring with fault injection: scenario trees interpreted by the real libcnb-test TestRunner on a spawned thread against argv-logging stand-ins for docker and pack; exactly one fault per run (a panic at every node position, a panic in the app-dir preprocessor, or every external command failing in turn); the command log and TMPDIR are judged by cleanup rules",
-    "All scenario trees up to depth 2 (quick, sampled to 70) / 3 (thorough) over build, rebuild (with/without preprocessor), start_container with up to two of logs_now / logs_wait / address_for_port / shell_exec, run_shell_command, download_sbom_files, both expected pack results; for each tree the baseline plus one run per fault position (~900 / ~2100 runs). Rules: every docker run --detach --name N (succeeded or not) is followed by docker rm --force N; for every image given to pack build exactly one docker rmi --force and exactly one docker volume remove --force I.build-cache I.launch-cache, both after the last command using the image (incl. rebuilds); only names created / allocated by this run are removed; non-detached runs carry --rm; TMPDIR is empty at exit; the process never aborts.",
+    "All scenario trees up to depth 2 (quick, sampled to 70) / 3 (thorough) over build, rebuild (with/without preprocessor), start_container with up to two of logs_now / logs_wait / address_for_port / shell_exec, run_shell_command, download_sbom_files, both expected pack results; for each tree the baseline plus one run per fault position: every external command failing (every second one also with >64 KiB of non-ASCII output), pack disappearing from PATH before a rebuild (spawn failure), a panic at every node position, a panic in the preprocessor (~1.7k / ~5k runs). Rules: every docker run --detach --name N (succeeded or not) is followed by docker rm --force N; for every image given to pack build exactly one docker rmi --force and exactly one docker volume remove --force I.build-cache I.launch-cache, both after the last command using the image (incl. rebuilds); only names created / allocated by this run are removed; non-detached runs carry --rm; TMPDIR is empty at exit; the process never aborts.",
     "Trusted: tools/testrun.py parsers, harness vpstandin. Stand-ins implement argument grammar and exit behaviour only; no real docker/pack. Two simultaneous faults are outside the quantifier.")
 CHECKS["C17"] = ("exploration",
     "runtime monitoring: generated BuildConfig / ContainerConfig values driven through the real TestRunner; the argv recorded by the docker/pack stand-ins is decoded by reference parsers written from the CLIs' own option grammars (pflag; docker run/exec non-interspersed) and compared with the configuration",
-    "Generated configurations with hostile strings (leading - and --, option look-alikes such as --name=evil, spaces, '=' in values, quotes, $, backticks, Unicode, empty, tab, newline) for builder, env values, entrypoint, command vectors, buildpack references (incl. duplicates), shell commands; random port and bind-mount sets; relative / dotted / absolute app dirs; preprocessors that add and remove files. Decoding must give exactly one pack build with the image name, builder, --path = the fixture itself or a private copy whose content = fixture + preprocessor edits (fixture untouched), buildpacks in configured order, each env pair once; and for docker run the name, detach/rm, platform, entrypoint, env map, publish set 127.0.0.1::<p>, mounts, IMAGE and command; run_shell_command and shell_exec arrive as single arguments. Any argv that does not parse under the target grammar is a violation.",
+    "Generated configurations with hostile strings (leading - and --, option look-alikes such as --name=evil, spaces, '=' in values, quotes, $, backticks, Unicode, empty, tab, newline) for builder, env values, entrypoint, command vectors, buildpack references (incl. duplicates), shell commands; random port and bind-mount sets; relative / dotted / absolute app dirs; preprocessors that add and remove files. Decoding must give exactly one pack build with the image name, builder, --path = the fixture itself or a private copy whose content = fixture + preprocessor edits (fixture untouched), buildpacks in configured order, each env pair once; and for docker run the name, detach/rm, platform, entrypoint, env map, publish set 127.0.0.1::<p>, mounts, IMAGE and command; run_shell_command and shell_exec arrive as single arguments; 40% of the cases rebuild with the first build's own configuration (ctx.config.clone()) and a non-idempotent preprocessor: the second pack build must see a fresh private copy with the edits applied once. Buildpack references include dot-relative paths that exist / do not exist under the crate. Any argv that does not parse under the target grammar is a violation.",
     "Trusted: the reference parsers in tools/testrun.py. Not generated (the target grammars give them meaning): '=' in env keys, ',' and '\"' in mount paths and buildpack references.")
 
 PENDING = {}
